@@ -137,6 +137,9 @@ def main():
             cases.append({'tool': t, 'cls': 'valid', 'detail': name, 'text': text})
         cases.append({'tool': 'exppp', 'cls': 'valid', 'detail': name + ' -l 10', 'text': text, 'args': ['-l', '10']})
         cases.append({'tool': 'exppp', 'cls': 'valid', 'detail': name + ' -l 99999', 'text': text, 'args': ['-l', '99999']})
+    for name, text, ok in gfam.interface_family(args.tier):
+        for t in TOOLS:
+            cases.append({'tool': t, 'cls': 'interface' if ok else 'interface-invalid', 'detail': name, 'text': text})
     for name, path in gfam.shipped():
         big = os.path.getsize(path) > 400000
         for t in TOOLS:
